@@ -21,15 +21,15 @@ def run(ctx, col, tier):
              "broadcasting / matrix-product shape error", floor=6, exhaustive=True)
     col.rule("R-CONJ", "centre conjugation: with the vector convention read from `apply`, the "
              "factor applied first is the translation by -centre and the last is +centre; the "
-             "centre is the root's position; 'origin' leaves the matrix unchanged", floor=4)
+             "centre is the root's position; 'origin' leaves the matrix unchanged", floor=4, shape=True)
     col.rule("R-MATLAYOUT", "entries of the literal matrices, abstracted to {0, 1, cos, +-sin, "
              "+-param}, equal the definition (translation column, scale diagonal, right-handed "
-             "axis rotations, Rodrigues skew matrix and formula)", floor=70, exhaustive=True)
+             "axis rotations, Rodrigues skew matrix and formula)", floor=70, exhaustive=True, shape=True)
     col.rule("R-APPLY", "apply: homogeneous coordinates in x,y,z,w order times the matrix, "
              "perspective divide by w, rows 0,1,2 written to x,y,z of a copy (one family), nothing "
-             "else stored", floor=5)
+             "else stored", floor=5, shape=True)
     col.rule("R-WIRE", "each transform class passes its own parameters to its own builder "
-             "(Translate->translate3d, Scale->scale3d, RotateX->rotate3d_x, ...)", floor=7)
+             "(Translate->translate3d, Scale->scale3d, RotateX->rotate3d_x, ...)", floor=7, shape=True)
     col.rule("R-PURE", "inputs untouched, result fresh", floor=3)
     col.not_decided += ["distance preservation and inverse round trip as numeric statements",
                         "angle values", "unit-length requirement on the Rodrigues axis"]
